@@ -2303,7 +2303,7 @@ class Gen(object):
             if cands and self.chance(0.4):
                 t = "100" + self.sp("+") + self.name(self.pick(cands)) + self.sp("*") + "2.6"
                 return t if self.chance(0.7) else "3, " + t
-            return self.pick(self.float_keys)
+            return self.pick(self.float_keys[:4]) if self.chance(0.6) else self.pick(self.float_keys)
         return ", ".join(str(x) for x in self.pick(self.store_keys))
 
     def st_put(self, d):
@@ -2375,6 +2375,8 @@ class Gen(object):
             return [[None, self.kw("IF") + " " + self.loop_condition(d) + " " + self.kw("THEN") + " " + self.kw("RETURN")]]
         if (self.iarr or self.rarr or self.sarr) and self.mult <= 40 and self.chance(0.07):
             return self.array_ops(d)
+        if self.mult <= 40 and self.chance(0.06):
+            return self.store_ops(d)
         c = self.sel(31)
         if self.mult * 4 > 3000 or depth <= 0:
             c = c % 14
@@ -2412,6 +2414,47 @@ class Gen(object):
             k = self.r.randint(int(math.floor(lo)), int(math.ceil(hi)))
             return self.name(e["var"]) + self.sp(self.pick([">=", "<=", "=", ">", "<"])) + (str(k) if k >= 0 else "-" + str(-k))
         return self.condition(d).txt
+
+    def store_ops(self, d):
+        """PUT followed by GET / EXISTS with the same (often computed, non-integer) subscripts: the stored value must
+        come back"""
+        self.features.add("store_roundtrip")
+        free = [x + self.sfx for x in LOOP_NAMES if x + self.sfx not in self.loopvars]
+        out = []
+        if free and self.chance(0.4):
+            v = self.pick(free)
+            vn = self.name(v)
+            lo, hi = self.r.randint(-3, 0), self.r.randint(1, 4)
+            key = self.pick(["100" + self.sp("+") + vn + self.sp("*") + "2.6", "3, 100" + self.sp("+") + vn + self.sp("*") + "2.6", vn + self.sp("*") + "2.6" + self.sp("+") + "100"])
+            head = self.kw("FOR") + " " + vn + " = %d " % lo + self.kw("TO") + " %d" % hi
+            out.append([None, head + " : " + self.kw("PUT") + "(" + vn + self.sp("*") + "1.5" + self.sp("+") + "7, " + key + ") : " + self.kw("NEXT") + " " + vn])
+            if self.chance(0.5):
+                out.append(self.simple_line(d))
+            item = self.kw("GET") + "(" + key + ")" if self.chance(0.7) else self.kw("EXISTS") + "(" + key + ")" + self.sp("+") + self.kw("GET") + "(" + key + ")"
+            out.append([None, head + " : " + self.kw("PUNCH") + " " + item + " : " + self.kw("NEXT") + " " + vn])
+            self.punches += (hi - lo + 1) * self.mult
+            self.cost += 8 * (hi - lo + 1) * self.mult
+            return out
+        key = self.pick(self.float_keys) if self.chance(0.75) else ", ".join(str(x) for x in self.pick(self.store_keys))
+        e = self.pos_expr(1)
+        if e.hi > 1e6:
+            e = self.pos_lit()
+        out.append([None, self.kw("PUT") + "(" + e.txt + ", " + key + ")"])
+        if self.chance(0.5):
+            out.append(self.simple_line(d))
+        c = self.sel(2)
+        if c == 0:
+            out.append([None, self.kw("PUNCH") + " " + self.kw("GET") + "(" + key + "), " + self.kw("EXISTS") + "(" + key + ")"])
+            self.punches += 2 * self.mult
+        elif c == 1:
+            r_ = self.name(self.pick(REAL_NAMES))
+            out.append([None, r_ + " = " + self.kw("GET") + "(" + key + ")" + self.sp("*") + "2 : " + self.kw("PUNCH") + " " + r_])
+            self.punches += self.mult
+        else:
+            out.append([None, self.kw("IF") + " " + self.kw("EXISTS") + "(" + key + ") " + self.kw("THEN") + " " + self.kw("PUNCH") + " " + self.kw("GET") + "(" + key + ") " + self.kw("ELSE") + " " + self.kw("PUNCH") + ' "missing"'])
+            self.punches += self.mult
+        self.cost += 5 * self.mult
+        return out
 
     def array_ops(self, d):
         """assignments whose right-hand side reads other elements of the array assigned to (fill, shift, reversal,
